@@ -25,7 +25,7 @@ REPLACE_FORMS = [f for f in S.CATALOGUE if f["mode"] == "replace" and not f["id"
 
 def cases(ctx):
     rng = ctx.rng
-    for _ in range(ctx.per_shard(ctx.pick(300, 20000))):
+    for _ in range(ctx.per_shard(ctx.pick(2500, 60000))):
         nlines = rng.choice([2, 3, 5, 10, 25, 60, 200] if not ctx.quick else [2, 3, 5, 10, 25, 60])
         nid = rng.choice([1, 2, 3, 4, 5, 9, 12, 20]) if nlines >= 10 else rng.randint(1, 5)
         yield {"kind": "doc", "dseed": rng.getrandbits(32), "nlines": nlines, "nid": nid,
@@ -38,7 +38,16 @@ def build_doc(case):
     idcls = [rng.choice(S.CLASSES) for _ in range(nid)]
     secrets = []
     for c in idcls:
-        secrets.append(S.gen_secret(rng, c, plain_alpha=True))
+        twin = None
+        if c in ("hex", "text") and rng.random() < 0.3:
+            # a different secret that differs from an earlier one only in letter case
+            base = next((s for s in secrets if s["cls"] == c), None)
+            if base is not None:
+                for t in (base["text"].swapcase(), base["text"].lower(), base["text"].upper()):
+                    if t != base["text"] and all(t != s["text"] for s in secrets):
+                        twin = dict(base, text=t, cores=[t], sub="case-twin")
+                        break
+        secrets.append(twin or S.gen_secret(rng, c, plain_alpha=True))
     lines = []
     for _ in range(case["nlines"]):
         for _try in range(30):
@@ -76,7 +85,7 @@ def build_doc(case):
 
 def normalise(cls, rep, as_plain=False):
     """Independent normalisation of a replacement to the pseudonym it encodes (None = undecodable)."""
-    if cls == "j9" and not as_plain:
+    if cls in ("j9", "j9bad") and not as_plain:
         return decoders.j9_decode(rep)
     if cls == "type7":
         return decoders.type7_decode(rep)
